@@ -151,6 +151,9 @@ func c01Templates() []model.Entry {
 		{Src: "etc/app.conf", Dst: "/etc/systemd/system/dev-disk-by\\x2dlabel-data.swap"},
 		{Src: "/dev/disk/by\\x2dlabel/data", Dst: "/etc/back\\slash-link", Type: "symlink"},
 		{Dst: "/var/lib/back\\slash dir", Type: "dir"},
+		{Src: "mixed/*.conf", Dst: "/etc/mixed", Type: "config"},
+		{Src: "mixed", Dst: "/etc/mixed2"},
+		{Src: "mixed", Dst: "/etc/mixed3", Type: "tree"},
 	}
 	// on-disk symlinks with non-canonical targets (shipped literally), inserted into the quick alphabet
 	links := []model.Entry{
